@@ -1223,6 +1223,8 @@ where
         let word_index = pos / W::BITS;
         let bit_index = pos % W::BITS;
         let bits = self.bits.as_ref();
+        #[cfg(sux_verif)]
+        let bits = crate::verif_hooks::HookedSlice::new(bits);
 
         if bit_index + self.bit_width <= W::BITS {
             (bits.get_unchecked(word_index).load(order) >> bit_index) & self.mask
@@ -1255,6 +1257,8 @@ where
         let word_index = pos / W::BITS;
         let bit_index = pos % W::BITS;
         let bits = self.bits.as_ref();
+        #[cfg(sux_verif)]
+        let bits = crate::verif_hooks::HookedSlice::new(bits);
 
         if bit_index + self.bit_width <= W::BITS {
             // this is consistent
